@@ -538,6 +538,7 @@ struct FsWorld {
       else if (op.k == "m") items[cur].push_back({0, (int)op.a, ""});
       else if (op.k == "inc") items[cur].push_back({1, 0, op.s});
       else if (op.k == "dangle") items[cur].push_back({2, 0, ""});
+      else if (op.k == "junk") items[cur].push_back({3, (int)op.a, ""});
     }
     // what happens to the token right after an include without a name is not specified; keep directives away
     // from that position by putting a marker in between (markers 9000+ exist only for this)
@@ -552,6 +553,12 @@ struct FsWorld {
     for (size_t i = 0; i < v.size(); i++) {
       if (v[i].kind == 0) t += "m" + std::to_string(v[i].marker) + " := " + std::to_string(v[i].marker) + " ;";
       else if (v[i].kind == 1) t += "include \"" + v[i].target + "\"";
+      else if (v[i].kind == 3) {
+        // a line with an error of another stage (macro extraction, parser): it must not change what the include resolution reports
+        static const char *JUNK[] = {"DEFINE AS x0 := 1 END DEFINE", "DEFINE DEFINE q AS x0 := 1 END DEFINE", "DEFINE q AS AS END DEFINE", "DEFINE PRIO 99999999999 w AS x0 := 1 END DEFINE",
+                                     "x0 := ;", "DEFINE w <ID> AS $7 := 1 END DEFINE"};
+        t += JUNK[(size_t)v[i].marker % 6];
+      }
       else t += "include";
       t += "\n";
     }
@@ -574,6 +581,7 @@ struct FsWorld {
     for (size_t i = 0; i < v.size(); i++) {
       int line = (int)i + 1;
       if (v[i].kind == 0) { m.markers.push_back({v[i].marker, {f, line}}); m.tokens += 4; last_inc.clear(); }
+      else if (v[i].kind == 3) { m.tokens += 12; last_inc.clear(); }
       else if (v[i].kind == 2) {
         m.has_dangling = true;
         m.tokens += 2;
@@ -1004,7 +1012,8 @@ Plan gen_incl_plan(Rng &rng, long long sub, bool thorough) {
     int ndir = 0;
     for (int k = 0; k < nitems; k++) {
       int w = (int)rng.below(100);
-      if (w < 45 || ndir >= 3) { Op m; m.k = "m"; m.a = marker++; p.ops.push_back(m); }
+      if (w < 5) { Op j; j.k = "junk"; j.a = (long long)rng.below(6); p.ops.push_back(j); }
+      else if (w < 45 || ndir >= 3) { Op m; m.k = "m"; m.a = marker++; p.ops.push_back(m); }
       else if (w < 92) {
         Op inc; inc.k = "inc";
         int tw = (int)rng.below(100);
@@ -1130,12 +1139,15 @@ Plan gen_macro_plan(Rng &rng, bool thorough) {
     const char *lits[] = {"a", "b", "c", "+", "!", "x", "1"};
     const char *slots[] = {"<ID>", "<INT>", "<V>"};
     int nd = (int)rng.range(1, 3);
+    std::string last_head;
     for (int d = 0; d < nd; d++) {
+      size_t head_at = text.size();
       text += "DEFINE ";
       if (rng.chance(1, 3)) text += "PRIO " + std::to_string(rng.chance(1, 4) ? 1000000 + (long)rng.below(3) - 1 : (long)rng.below(4)) + " ";
       int rl = (int)rng.range(1, 3), nslots = 0;
       for (int i = 0; i < rl; i++) { if (rng.chance(1, 4)) { text += std::string(slots[rng.below(3)]) + " "; nslots++; } else text += std::string(lits[rng.below(7)]) + " "; }
       text += "AS ";
+      last_head = text.substr(head_at);
       int bl = (int)rng.range(0, 4);
       for (int i = 0; i < bl; i++) {
         int bw = (int)rng.below(10);
@@ -1145,6 +1157,8 @@ Plan gen_macro_plan(Rng &rng, bool thorough) {
       }
       text += "END DEFINE\n";
     }
+    // the same pattern at the same priority once more with another body: which of two equally good matches wins is fixed by the text
+    if (!last_head.empty() && rng.chance(1, 4)) text += last_head + std::string(lits[rng.below(7)]) + " " + lits[rng.below(7)] + " END DEFINE\n";
     int ul = (int)rng.range(1, 8);
     for (int i = 0; i < ul; i++) text += std::string(lits[rng.below(7)]) + " ";
     p.note = "random macro set";
